@@ -356,10 +356,72 @@ class _ConsoleSys:
     stdout = _NullOut()
 
 
+PROJECT_HOOK_KINDS = ("none", "pass", "user", "other", "user-if-failed", "other-if-failed")
+PRE_RUN_TEXT = "pre_run: the environment is not ready"
+POST_RUN_TEXT = "post_run: cannot publish the results"
+
+
+def _run_through_project(hooks, em, side, ctx, suites, registry, backends, report_dir, saving_strategy, force_disabled, stop_on_failure, n):
+    """the run as `lcc run` starts it: PreparedProject(project, suites, registry, cli_args).run(backends, report_dir, strategy, …);
+    the event manager the real code asks for (`AsyncEventManager.load()`) is the recording one, `run_suites` is recorded"""
+    import lemoncheesecake.project as LP
+    from lemoncheesecake.exceptions import UserError
+    calls = side["project_calls"] = []
+
+    def failed():
+        # "the run did not complete": what a post_run hook publishing the backend's output would find out
+        return ctx.pending_failure_at is not None or em.get_pending_failure()[0] is not None
+
+    def hook(name, kind, text):
+        def call(self, cli_args, report_dir):
+            k = kind
+            if k.endswith("-if-failed"):
+                k = k[:-len("-if-failed")] if failed() else "pass"
+            if k == "user":
+                calls.append(name + ":UserError")
+                raise UserError(text)
+            if k == "other":
+                calls.append(name + ":RuntimeError")
+                raise RuntimeError(text)
+            calls.append(name + ":ok")
+        return call
+    ns = {}
+    if hooks.get("pre", "none") != "none":
+        ns["pre_run"] = hook("pre_run", hooks["pre"], PRE_RUN_TEXT)
+    if hooks.get("post", "none") != "none":
+        ns["post_run"] = hook("post_run", hooks["post"], POST_RUN_TEXT)
+    proj = type("LccverifProject", (LP.Project,), ns)(report_dir)
+
+    class _EMLoader:
+        @staticmethod
+        def load():
+            return em
+
+    def run_suites(*a, **k):
+        calls.append("run_suites")
+        side["session"] = a[2]
+        return LR.run_suites(*a, **k)
+    saved = (LP.AsyncEventManager, LP.run_suites)
+    LP.AsyncEventManager, LP.run_suites = _EMLoader, run_suites
+    try:
+        report = LP.PreparedProject(proj, suites, registry, ()).run(
+            backends, report_dir, saving_strategy, force_disabled=force_disabled, stop_on_failure=stop_on_failure, nb_threads=n)
+        return report.is_successful()
+    finally:
+        LP.AsyncEventManager, LP.run_suites = saved
+
+
 def run_project(project, strategy="off", gate_seed=0, interrupt_at=None, backend_fault=None, watchdog=30.0,
                 gate_watchdog=10.0, stall=8.0, builder=None, console=True, listeners=None, file_backends=None,
-                saving=None, start_gates=False):
+                saving=None, start_gates=False, project_hooks=None):
     """
+    project_hooks None (the run is started with `runner.run_suites`) | {"pre": kind, "post": kind}: the run is started through the
+                  PROJECT-LEVEL entry point `PreparedProject.run` (what `lcc run` calls) of a `Project` subclass whose pre_run / post_run
+                  hooks are of the given kinds (PROJECT_HOOK_KINDS: "none" = not overridden, "pass", "user" = raises lcc.UserError,
+                  "other" = raises RuntimeError, "user-if-failed" / "other-if-failed" = raises only when the run did not complete,
+                  i.e. a reporting backend failed); obs["project_calls"] = ["pre_run:ok" | "pre_run:UserError" | "pre_run:RuntimeError",
+                  "run_suites", "post_run:…"] in call order; obs["outcome"] is what the caller of PreparedProject.run saw
+                  (seams: module globals AsyncEventManager / run_suites of lemoncheesecake.project)
     strategy      "off" | "fifo" | "lifo" | "random"   gate controller (obs.schedrec)
     start_gates   every task (of ANY kind: suite beginning / setup / test / teardown / end …) is held at a gate by the worker that took
                   it, BEFORE anything of it runs: the gate strategy then chooses the order in which tasks dispatched in one batch
@@ -471,11 +533,16 @@ def run_project(project, strategy="off", gate_seed=0, interrupt_at=None, backend
         if saving:
             from lemoncheesecake.reporting.savingstrategy import make_report_saving_strategy
             strategy = make_report_saving_strategy(saving)
-        session = Session.create(em, backends, tmp, strategy, nb_threads=n)
-        side["session"] = session
+        if project_hooks is None:
+            session = Session.create(em, backends, tmp, strategy, nb_threads=n)
+            side["session"] = session
         try:
-            ret = LR.run_suites(suites, registry, session, force_disabled=project["force_disabled"],
-                                stop_on_failure=project["stop_on_failure"], nb_threads=n)
+            if project_hooks is not None:
+                ret = _run_through_project(project_hooks, em, side, ctx, suites, registry, backends, tmp, strategy,
+                                           project["force_disabled"], project["stop_on_failure"], n)
+            else:
+                ret = LR.run_suites(suites, registry, session, force_disabled=project["force_disabled"],
+                                    stop_on_failure=project["stop_on_failure"], nb_threads=n)
             side["outcome"] = {"returned": bool(ret)}
         except schedrec.HangDetected:
             side["outcome"] = {"hang": True}
@@ -519,6 +586,9 @@ def run_project(project, strategy="off", gate_seed=0, interrupt_at=None, backend
             "thread_deaths": list(side["deaths"]), "released": [list(x) if isinstance(x, (list, tuple)) else x for x in rec.released],
             "gate_watchdog": rec.watchdog_fired, "order_errors": list(ctx.order_errors), "nb_events": ctx.nfired,
         })
+        if project_hooks is not None:
+            obs["project_hooks"] = dict(project_hooks)
+            obs["project_calls"] = list(side.get("project_calls") or [])
         if listeners:
             obs["fire_names"] = list(ctx.fire_names)
             obs["listeners"] = [{"shape": shape, "events": list(ls.names), "got": list(ls.got)} for shape, ls in side["listeners"]]
